@@ -18,7 +18,9 @@ def gen_peer(rng, svc):
     psvc = svc if rng.chance(5, 6) else rng.choice(["_other._tcp.local", "_tcp.local", "local", "x." + svc])
     ips = []
     for _ in range(rng.below(4)):
-        ips.append(("4", 0x0A000000 + rng.below(5)) if rng.chance(2, 3) else ("6", (0xFE80 << 112) + rng.below(5)))
+        r = rng.below(9)
+        ips.append(("4", 0x0A000000 + rng.below(5)) if r < 5 else ("6", (0xFE80 << 112) + rng.below(5)) if r < 8
+                   else ("6", (0xFFFF << 32) + 0x0A000000 + rng.below(5)))   # IPv4-mapped IPv6
     ips = list(dict.fromkeys(ips))
     ports = list(dict.fromkeys(rng.choice([80, 8080, 0, 65535, 53]) for _ in range(rng.below(4))))
     attrs = {}
@@ -52,7 +54,9 @@ def cases(rng, tier):
             # one announcement per owner name: two different TXT records under one owner are merged in HashMap
             # iteration order, which neither the model nor the property fixes
             if full in seen:
-                continue
+                # a re-announcement of an instance already announced: same ports and attributes, a superset of the addresses
+                prev = next(q for q in peers if q["name"] + "." + q["svc"] == full)
+                p = dict(prev, ips=list(dict.fromkeys(prev["ips"] + p["ips"])))
             seen.add(full)
             peers.append(p)
         if rng.chance(1, 3):
